@@ -703,16 +703,56 @@ SAVE_FRAMES = (":save_results", ":save_kwargs", ":get_result_dictionary",
 
 
 def make_history(case):
-    return configs.history_from(case, MONITORS, post=POST)
+    # the wall-clock limit is a backstop only (inconclusive, never a
+    # violation); nominal run time is 5-30 s
+    return configs.history_from(case, MONITORS, post=POST,
+                                extra={"timeout": 600})
+
+
+@st.composite
+def std_job(draw):
+    """Standard-sampler runs with plain algorithmic options (what is written
+    to the result file does not depend on the exotic ones, and C20 decides
+    whether those terminate): varied are the model (parameter names, number
+    of fields), the size of the run, capped / converged, the history."""
+    model = draw(configs.std_models(include_quantised=False))
+    n = draw(st.integers(50, 150))
+    kw = {"seed": draw(st.integers(0, 2**31 - 1)), "nlive": n, "plot": False}
+    kw["flow_config"] = {
+        "ftype": draw(st.sampled_from(["realnvp", "realnvp", "nsf"])),
+        "n_blocks": draw(st.integers(1, 2)),
+        "n_neurons": draw(st.sampled_from([4, 8, 16])),
+    }
+    kw["training_config"] = {
+        "max_epochs": draw(st.integers(10, 30)),
+        "patience": draw(st.sampled_from([5, 10])),
+        "batch_size": draw(st.sampled_from([50, 100, 1000])),
+    }
+    labels = ["model:" + model["name"],
+              "ftype:" + kw["flow_config"]["ftype"]]
+    if draw(st.integers(0, 2)) == 0:
+        kw["max_iteration"] = draw(st.integers(2 * n, 6 * n))
+        labels.append("max_iteration")
+    else:
+        kw["max_iteration"] = 25 * n
+    if draw(st.booleans()):
+        kw["stopping"] = draw(st.sampled_from([0.1, 0.5, 1.0]))
+    if draw(st.booleans()):
+        kw["shrinkage_expectation"] = draw(st.sampled_from(["logt", "t"]))
+    if draw(st.booleans()):
+        kw["maximum_uninformed"] = draw(st.integers(n // 2, n))
+    if draw(st.booleans()):
+        kw["checkpointing"] = True
+        kw["checkpoint_on_iteration"] = True
+        kw["checkpoint_interval"] = draw(st.integers(n // 2, 3 * n))
+        labels.append("iteration-checkpoints")
+    return {"model": model, "ins": False, "kwargs": kw, "kills": [],
+            "labels": labels}
 
 
 def run_cases(ctx):
     n_std, n_ins = (3, 6) if ctx.quick else (24, 36)
-    std = configs.collect(
-        configs.standard_job(nlive=(50, 150), include_quantised=False,
-                             max_epochs=(10, 30),
-                             iteration_checkpoints=False),
-        ctx.seed * 1000 + 901, n_std)
+    std = configs.collect(std_job(), ctx.seed * 1000 + 901, n_std)
     ins = configs.collect(
         configs.ins_job(nlive=(100, 250)), ctx.seed * 1000 + 902, n_ins)
     cases = []
@@ -720,7 +760,6 @@ def run_cases(ctx):
         kw = dict(c["kwargs"])
         ext = EXTS[(i + ctx.seed) % 3]
         kw["result_extension"] = ext
-        kw.setdefault("max_iteration", 20 * kw["nlive"])
         labels = list(c["labels"])
         if i % 3 == 1:
             kw["pool"] = {"__pool__": 2}
